@@ -11,6 +11,7 @@ def ttName : TT → String
   | .velocity => "Velocity" | .velocityRel => "VelocityRel" | .timing => "Timing" | .loopBegin => "LoopBegin"
   | .loopBreak => "LoopBreak" | .loopEnd => "LoopEnd" | .harmonyBegin => "HarmonyBegin" | .harmonyEnd => "HarmonyEnd"
   | .div => "Div" | .sub => "Sub" | .playFromHere => "PlayFromHere" | .comment => "Comment"
+  | .track => "Track" | .channel => "Channel" | .trackSync => "TrackSync" | .tokens => "Tokens" | .constInt => "ConstInt" | .other => "Other"
   | .octaveRandom => "OctaveRandom" | .qlenRandom => "QLenRandom" | .velocityRandom => "VelocityRandom" | .timingRandom => "TimingRandom"
 
 partial def svStr : SV → String
